@@ -126,7 +126,7 @@ impl DefaultMetricSearcher {
         let cached_pos = self.cached_pos.lock().unwrap();
         if cache_ok {
             for (j, v) in filenames.iter().enumerate() {
-                if v != &cached_pos.metric_filename {
+                if v == &cached_pos.metric_filename {
                     i = j;
                     offset_in_idx = cached_pos.cur_offset_in_idx;
                     break;
